@@ -297,6 +297,7 @@ def check_C15(ctx, rep):
              'peek_queue and pick_next receive (client, server) in that order')
     check_side_plumbing(ctx, rep, 'C15.R6', only=('sim_network_stack', 'peek_queue', 'pick_next'))
     check_simqueue_peek_merge(ctx, rep, 'C15.R4')
+    check_misc_simulator_tables(ctx, rep, 'C15')
     ps = prog.fn(SIM, 'SimQueue', 'push_sim')
     psa = an.get(ps)
     pfps = an.paths(ps, history=True)
@@ -1672,6 +1673,12 @@ def check_simqueue_peek_merge(ctx, rep, rid):
         ok, w = all_paths(sts, ok_case)
         rep.ob(rid, pk, 'merge:%s-returned-only-when-first' % mine, ok and bool(sts), '' if ok else 'witness: ' + show_facts(w))
     rep.count_floor(rid, 'non-empty results of SimQueue::peek', n, 4)
+    # the time to a base event includes the accumulated network delay (EventQueue::peek)
+    ek = prog.fn(SIM, 'EventQueue', 'peek')
+    ea = an.get(ek)
+    adds = [a for (b, f, a, t) in calls(ea) if callee_str(f).endswith('::add') and any(strip_sites(x) == ('param', 2) for x in a)]
+    subs = [a for (b, f, a, t) in calls(ea) if callee_str(f).endswith('::sub') and any(strip_sites(x) == ('param', 2) for x in a)]
+    rep.ob(rid, ek, 'base-duration-includes-the-network-delay', len(adds) >= 1 and not subs, 'additions of network_delay_sum: %d, subtractions: %d' % (len(adds), len(subs)))
     # "nothing queued" is answered only for an empty queue: the early empty result sits behind len() == 0 / is_empty() (the caller
     # unwraps otherwise)
     for (cls, nm) in (('SimQueue', 'peek'), ('EventQueue', 'peek')):
@@ -1939,9 +1946,21 @@ def check_earliest_side(ctx, rep, rid):
                                any(contains(z, lambda w: w == ('param', 2)) for z in y[2]) and any(is_blk(z) for z in y[2]))
         no_min = not contains(x, lambda y: isinstance(y, tuple) and y and y[0] == 'call' and (y[1].endswith('Ord>::min') or y[1].endswith('Ord::min')))
         rep.ob(rid, fn, 'blocked-candidate-leaves-no-earlier-than-blocking-ends', through_max and no_min, 'time used: %s' % shape(x)[:100])
+    pfe = an.paths(fn, history=True)
     for (b, k, v) in ret_defs(fa):
         if isinstance(v, tuple) and v and v[0] == 'tuple' and len(v[2]) == 3:
             rep.ob(rid, fn, 'result-carries-the-callers-side', strip_sites(v[2][2]) == ('param', 6), 'is_client = %s' % shape(v[2][2]))
+            d0 = v[2][0]
+            if isinstance(d0, tuple) and d0 and d0[0] == 'cdef' and d0[1].endswith('::MAX'):
+                # "nothing on this side" only when neither candidate exists
+                sts = pfe.at(b, k) if k is not None else pfe.at_entry(b)
+
+                def none_of(S, which):
+                    return any((f[0] == 'bcall' and f[1].endswith('is_none') and f[3] is True and which(f[2][0])) or
+                               (f[0] == 'bcall' and f[1].endswith('is_some') and f[3] is False and which(f[2][0])) or
+                               (f[0] == 'variant' and f[2] == 'None' and which(f[1])) for f in S)
+                ok, w = all_paths(sts, lambda S: none_of(S, lambda e: is_blk(e) and not is_free(e)) and none_of(S, lambda e: is_free(e) and not is_blk(e)))
+                rep.ob(rid, fn, 'nothing-only-when-neither-candidate-exists', ok and bool(sts), '' if ok else 'witness: ' + show_facts(w))
     # base events: + network_delay_sum
     adds = [y for (b, f, a, t) in calls(fa) for y in [fa.call_value(fa.blocks[b]['t'], (b, len(fa.blocks[b]['s'])))] if callee_str(f).endswith('::add') and is_free(y)]
     subs = [1 for (b, f, a, t) in calls(fa) if callee_str(f).endswith('::sub') and any(is_free(x) for x in a)]
@@ -1983,6 +2002,74 @@ def check_zero_default_delays(ctx, rep, rid):
                     defaults.append(x)
         ok = bool(defaults) and all(zero_dur(d) for d in defaults)
         rep.ob(rid, fn, 'no-integration-means-zero-delay', ok, 'returns %s' % (shape(rv[0])[:80] if rv else '?'))
+
+
+def check_misc_simulator_tables(ctx, rep, pid):
+    """small tables found missing by the mutation campaign"""
+    prog, an = ctx.prog, ctx.an
+    if pid == 'C15':
+        # is_empty is len() == 0, on both queue types
+        for cls in ('SimQueue', 'EventQueue'):
+            fn = prog.fn(SIM, cls, 'is_empty')
+            rv = [v for (b, k, v) in ret_defs(an.get(fn))]
+            ok = len(rv) == 1 and isinstance(rv[0], tuple) and rv[0][0] == 'bin' and rv[0][1] == 'Eq' and any(is_call(unload(z), '::len') for z in rv[0][2:4]) and any(is_const(z, 0) for z in rv[0][2:4])
+            rep.ob('C15.R2', fn, 'is_empty-is-len-equals-zero', ok, 'returns %s' % (shape(rv[0])[:60] if rv else '?'))
+        # the direction is the second column of a trace line
+        pt = sim_fn(prog, 'parse_trace_advanced')
+        pta = an.get(pt)
+        cols = set()
+        for (b, e) in switch_conditions(pta):
+            for y in walk(e):
+                if isinstance(y, tuple) and y and y[0] == 'ktext' and y[2] in ('"s"', '"sn"', '"r"', '"rn"', '"sp"', '"rp"'):
+                    for z in walk(e):
+                        if isinstance(z, tuple) and z and z[0] == 'idx' and num(z[2]) is not None:
+                            cols.add(num(z[2]))
+        if cols:
+            rep.ob('C15.R5', pt, 'direction-is-the-second-column', cols == {1}, 'direction literals compared with column(s) %s of the line' % sorted(cols))
+        # sim_network_stack reports network activity (true) exactly for the packets that enter or leave the tunnel
+        ns = sim_fn(prog, 'sim_network_stack')
+        na = an.get(ns)
+        arms, rest, other, swb = arms_on(prog, na, 'maybenot::event::TriggerEvent', lambda e: True)
+        want = {'TunnelSent': {1}, 'TunnelRecv': {1}, 'NormalSent': {0}}
+        for (b, k, v) in ret_defs(na):
+            c = num(v)
+            if c is None:
+                continue
+            arm = [n for n, hb in arms.items() if na.cfg.dominates(hb, b)]
+            if arm and arm[0] in want:
+                rep.ob('C15.R1', ns, 'network-activity-flag:%s' % arm[0], c in want[arm[0]], 'returns %s in the %s arm' % (bool(c), arm[0]))
+    if pid == 'C19':
+        # the consistency assertions assert that the search found something (their condition is is_some of the search result)
+        for name in ('do_internal_timer', 'do_scheduled_action'):
+            fn = sim_fn(prog, name)
+            fa = an.get(fn)
+            n = 0
+            for b in fa.cfg.reach:
+                t = fa.blocks[b]['t']
+                if t['k'] == 'switch' and t.get('dty') == 'bool':
+                    e = strip_sites(fa.operand(t['d'], (b, len(fa.blocks[b]['s']))))
+                    # a successor from which no return is reachable and a panic entry point is: the failing side of an assert!
+                    def dooms(y):
+                        if any(fa.cfg.can_reach(y, r) or y == r for r in fa.cfg.returns):
+                            return False
+                        return any(fa.blocks[z]['t']['k'] == 'call' and 'panic' in callee_str(fa.blocks[z]['t']['f']) for z in fa.cfg.reachable_from(y) | {y})
+                    panics = [y for (y, lab) in fa.cfg.succ[b] if dooms(y)]
+                    if len(panics) == len(fa.cfg.succ[b]):
+                        continue
+                    if not panics:
+                        continue
+                    n += 1
+                    neg = isinstance(e, tuple) and e and e[0] == 'un' and e[1] == 'Not'
+                    core_ = e[2] if neg else e
+                    for (y, lab) in fa.cfg.succ[b]:
+                        if y in panics:
+                            pol = (lab[1] != '0') if lab[0] == 'sw' else ('0' in lab[1])
+                            # panic edge taken when the (possibly negated) condition evaluates to pol: must mean "nothing found"
+                            found_means = is_call(core_, 'is_some')
+                            none_means = is_call(core_, 'is_none')
+                            nothing = (found_means and (pol if neg else not pol)) or (none_means and (not pol if neg else pol))
+                            rep.ob('C19.R6', fn, 'assertion-fires-only-when-nothing-was-found', nothing, 'panic on %s = %s' % (shape(e)[:40], pol))
+            rep.count_floor('C19.R6', 'consistency assertions in ' + name, n, 1)
 
 
 def check_C19(ctx, rep):
@@ -2233,6 +2320,7 @@ def check_C19(ctx, rep):
              'result in sim_network_stack relies on it)')
     check_pop_blocking(ctx, rep, 'C19.R6')
     check_before_helper(ctx, rep, 'C19.R6')
+    check_misc_simulator_tables(ctx, rep, 'C19')
     check_side_plumbing(ctx, rep, 'C19.R5')
     check_pick_next_none(ctx, rep, 'C19.R4')
     check_stop_conditions(ctx, rep, 'C19.R4')
@@ -2354,8 +2442,10 @@ def check_queue_tags(ctx, rep, rid):
         for tg in tags:
             if tg == 'Blocking' and not vals and any(is_const(ka.rvalue(s['rv'], (b, 0)), 0) for s in ka.blocks[b]['s'] if 'p' in s and s['rv']['k'] == 'use'):
                 continue
+            if tg == 'Blocking' and not vals and any('p' in s3 and s3['rv']['k'] == 'agg' and s3['rv'].get('variant') == 'None' for s3 in ka.blocks[b]['s']):
+                continue   # the empty-queue result (None, Queue::Blocking, ..)
             n += 1
-            ok = low.get(tg) in vals or (not vals and tg == 'Blocking')
+            ok = low.get(tg) in vals
             rep.ob(rid, pk, 'peek-tag:%s' % tg, ok, 'Queue::%s set where the candidate comes from heap(s) %s' % (tg, vals))
     rep.count_floor(rid, 'tag assignments in EventQueue::peek', n, 3)
     # side routing of the SimQueue wrappers
